@@ -39,7 +39,7 @@ def teams(tier):
                     for pre in (0, 20, 90):
                         yield {"kind": "team", "L": L, "alap": alap, "m": m, "leave": leave, "pre": pre}
                 for lim in ("1h", "2h", "3h", "3.5h"):
-                    for where in ("task", "group", "member"):
+                    for where in ("task", "group", "member", "grand", "grand-own", "ctask", "gctask-own", "team3-grand-own"):
                         yield {"kind": "teamlim", "L": L, "alap": alap, "m": m, "lim": lim, "where": where}
                 for k in range(0, 5):
                     for eff2 in (1.0, 0.5):
@@ -106,9 +106,23 @@ def to_spec(it):
             x["limits"] = {"dailymax": it["lim"]}
         elif it["where"] == "group":
             rs = [{"id": "grp", "limits": {"dailymax": it["lim"]}, "children": rs}]
-        else:
+        elif it["where"] == "member":
             rs[1]["limits"] = {"dailymax": it["lim"]}
-        base.update(resources=rs, tasks=[x])
+        elif it["where"] in ("grand", "grand-own", "team3-grand-own"):
+            # the binding limit sits two levels above the members; 'own': the group in between declares a (loose) limit itself
+            if it["where"] == "team3-grand-own":
+                rs.append({"id": "r3"})
+                x["alloc"] = ["r1", "r2", "r3"]
+            grp = {"id": "grp", "children": rs}
+            if it["where"] != "grand":
+                grp["limits"] = {"dailymax": "8h"}
+            rs = [{"id": "dept", "limits": {"dailymax": it["lim"]}, "children": [grp]}]
+        tasks = [x]
+        if it["where"] == "ctask":
+            tasks = [{"id": "box", "limits": {"dailymax": it["lim"]}, "children": [x]}]
+        elif it["where"] == "gctask-own":
+            tasks = [{"id": "top", "limits": {"dailymax": it["lim"]}, "children": [{"id": "box", "limits": {"dailymax": "8h"}, "children": [x]}]}]
+        base.update(resources=rs, tasks=tasks)
     elif k == "team":
         r2 = {"id": "r2"}
         if it["leave"]:
